@@ -70,6 +70,68 @@ def r1(ck):
             else:
                 ck.ok(rule, inst, repr(f), fn.where(t))
     ck.floor(rule, "Result-returning calls in the output scope", n, 60)
+    # partial writes: Write::write / write_vectored report how much was taken; Ok(n) with n short of the data is not an error, so a
+    # caller that only propagates Err loses the rest of the data silently.  The count must flow into something (a comparison, an
+    # advance of the slice, a return value); write_all does that itself.
+    for fid in sorted(scope):
+        fn = prog.fns[fid]
+        for bb, t in fn.calls():
+            if fn.blocks[bb]["cleanup"] or "p" in t["dest"]:
+                continue
+            c = callee_of(t)
+            last = (c.get("path") or "").split("::")[-1]
+            if last not in ("write", "write_vectored") or not t["dty"].startswith("core::result::Result<usize"):
+                continue
+            used = count_is_used(fn, t["dest"]["l"])
+            ck.require(used, rule, "byte count of %s in %s" % (last, fid),
+                       "%s returns how many bytes were taken, and that count is never looked at: a short write (disk full, quota, file size "
+                       "limit) is not an Err, so the rest of the data is lost and the run reports success" % (c.get("rpath") or last), fn.where(t),
+                       ok_detail="the count is used")
+
+
+def count_is_used(fn, result_local):
+    """Does the usize inside the Result held by result_local flow into anything other than being carried around?"""
+    tainted = {result_local}
+    changed = True
+    while changed:
+        changed = False
+        for bb, idx, st in fn.stmts():
+            if st["k"] != "assign" or st["lhs"]["l"] in tainted:
+                continue
+            rv = st["rv"]
+            ops = []
+            if rv["k"] in ("use", "cast"):
+                ops = [rv["op"]]
+            elif rv["k"] in ("ref", "rawptr"):
+                ops = [{"k": "copy", "pl": rv["pl"]}]
+            elif rv["k"] == "agg":
+                ops = rv["ops"]
+            if any(o.get("k") in ("copy", "move") and o["pl"]["l"] in tainted for o in ops):
+                tainted.add(st["lhs"]["l"])
+                changed = True
+        for bb, t in fn.calls():
+            rp = callee_of(t).get("path") or ""
+            if "p" not in t["dest"] and t["dest"]["l"] not in tainted and rp.endswith(("Try::branch", "Try>::branch")) and \
+                    any(a.get("k") in ("copy", "move") and a["pl"]["l"] in tainted for a in t["args"]):
+                tainted.add(t["dest"]["l"])
+                changed = True
+    counts = {l for l in tainted if fn.local_ty(l) == "usize"}
+    if 0 in tainted:
+        return True      # handed to the caller
+    for bb, idx, st in fn.stmts():
+        if st["k"] == "assign" and st["rv"]["k"] in ("bin", "un"):
+            for o in (st["rv"].get("a"), st["rv"].get("b")):
+                if o and o.get("k") in ("copy", "move") and o["pl"]["l"] in counts:
+                    return True
+    for bb, t in fn.terms():
+        if t["k"] == "switch" and t["discr"].get("k") in ("copy", "move") and t["discr"]["pl"]["l"] in counts:
+            return True
+        if t["k"] == "call":
+            rp = callee_of(t).get("path") or ""
+            if not rp.endswith(("Try::branch", "Try>::branch", "from_residual")) and \
+                    any(a.get("k") in ("copy", "move") and a["pl"]["l"] in counts for a in t["args"]):
+                return True
+    return False
 
 
 def flush_sites(ck, fn):
